@@ -934,6 +934,21 @@ def kind_getattr(interp, k, name):
                     return list(d[1])
                 raise OutOfSubset("tolist() of an opaque array")
             return tolist
+    if kd == "path":
+        if name == "expanduser":
+            def expanduser(_k=k):
+                # a leading '~' / '~user' component is replaced by a home directory of the running process (unspecified; an unknown user
+                # raises RuntimeError); any other path is returned unchanged
+                ctx = cur()
+                pt = sterm(_k.payload["p"])
+                tilde = z3.PrefixOf(z3.StringVal("~"), pt)
+                if ctx.branch(tilde):
+                    if ctx.branch(z3.Bool(ctx.fresh_name("unknown_user"))):
+                        raise RuntimeError("Could not determine home directory.")
+                    h = StrSym(z3.String(ctx.fresh_name("expanded_home_path")))
+                    return Kind("path", rep=_k.payload["rep"], p=h)
+                return _k
+            return expanduser
     if kd in ("npint", "npfloat", "npbool", "npcomplex"):
         if name == "item":
             def item(_k=k):
@@ -1117,6 +1132,8 @@ def install(reg):
     # ---- strings
     def attr_str(interp, base, name):
         if is_strsym(base):
+            if name == "__class__":
+                return str
             b = as_name(base)
             if hasattr(StrSym, name) and not name.startswith("__"):
                 return getattr(b, name)
@@ -1129,6 +1146,8 @@ def install(reg):
     def attr_sym(interp, base, name):
         if is_strsym(base):
             return attr_str(interp, base, name)
+        if name == "__class__":
+            return bool if base.is_bool else int if base.is_int else float
         return prev_sym_attr(interp, base, name) if prev_sym_attr else NotImplemented
 
     reg.attr_models[Sym] = attr_sym
@@ -1458,7 +1477,13 @@ def install(reg):
             # 0-d array holding the numpy scalar's value
             return mk_ndarray(DType(str(x.payload["rep"].dtype)), (), ("np0", id(x)))
         if isinstance(x, (list, tuple)) and all(is_numeric_value(v) for v in x):
-            return mk_ndarray(DType(promoted_dtype(x)), (len(x),), ("seq", tuple(numeric_of(v) for v in x)))
+            if dtype is None:
+                # numpy finds the common dtype: every element keeps its numeric value (A1/A2)
+                return mk_ndarray(DType(promoted_dtype(x)), (len(x),), ("seq", tuple(numeric_of(v) for v in x)))
+            # an explicit dtype CASTS every element (int: truncation, bool: != 0, narrower float: rounding)
+            return mk_ndarray(DType(getattr(dtype, "__name__", str(dtype))), (len(x),), ("seq", tuple(cast_numeric(interp.ctx, v, dtype) for v in x)))
+        if dtype is not None and isinstance(dtype, type):
+            raise OutOfSubset("np.asarray(value, dtype=<type>) of a non-sequence abstract value")
         if prev_asarray is not None and not isinstance(x, (Kind, list, tuple)):
             return prev_asarray(interp, x, dtype=dtype, **k)
         raise OutOfSubset("np.asarray of a non-numeric abstract value")
@@ -1666,6 +1691,41 @@ def install(reg):
 # ------------------------------------------------------------------------------------------------
 # numeric scalars (all-numeric sequences)
 # ------------------------------------------------------------------------------------------------
+
+
+_ROUND = {}
+
+
+def cast_numeric(ctx, v, T):
+    """numpy's cast of one numeric scalar to the scalar type T (python bool/int/float or a numpy scalar type)."""
+    import numpy as np
+
+    src = v
+    v = numeric_of(v)
+    t = lift(v)
+    if z3.is_bool(t):
+        t_num = z3.If(t, z3.IntVal(1), z3.IntVal(0))
+    else:
+        t_num = t
+    if not isinstance(T, type):
+        raise OutOfSubset(f"np.asarray with dtype={T!r}")
+    if T is bool or issubclass(T, np.bool_):
+        return Sym(t if z3.is_bool(t) else t_num != 0)
+    if T is int or issubclass(T, np.integer):
+        if z3.is_int(t_num):
+            return Sym(t_num)
+        return Sym(z3.If(t_num >= 0, z3.ToInt(t_num), -z3.ToInt(-t_num)))  # truncation toward zero
+    if T is float or T is np.float64:
+        return Sym(z3.ToReal(t_num) if z3.is_int(t_num) else t_num)
+    if issubclass(T, np.floating):
+        # narrower float: values already of that precision (a numpy scalar of type T) or integral stay, others are ROUNDED (unspecified, A1)
+        if isinstance(src, Kind) and type(src.payload["rep"]) is T:
+            return Sym(t_num)
+        if z3.is_int(t_num):
+            return Sym(z3.ToReal(t_num))
+        f = _ROUND.setdefault(T.__name__, z3.Function("round_to_" + T.__name__, z3.RealSort(), z3.RealSort()))
+        return Sym(f(t_num))
+    raise OutOfSubset(f"np.asarray with dtype={T.__name__}")
 
 
 def is_numeric_value(v):
